@@ -77,7 +77,7 @@ mut("c01_filter_break", "C01", ["PublishContext#at.C08.after.last"],
 # ---------------------------------------------------------------- C10 / C11
 mut("c10_read_ge", "C10", ["(*MemoryStore).Read#loop1.inv.block.preserve"],
     [("persist.go", "\t\tif from == OffsetOldest || event.Offset > from {\n\t\t\tresult = append(result, event)", "\t\tif from == OffsetOldest || event.Offset >= from {\n\t\t\tresult = append(result, event)")])
-mut("c10_read_next_stale", "C10", ["(*MemoryStore).Read#post.C10.read.next"],
+mut("c10_read_next_stale", "C10", ["(*MemoryStore).Read#cs.C10.read.r5a"],
     [("persist.go", "\t\t\tlastOffset = event.Offset\n\t\t\tif limit > 0 && len(result) >= limit {\n\t\t\t\tbreak\n\t\t\t}", "\t\t\tif limit > 0 && len(result) >= limit {\n\t\t\t\tbreak\n\t\t\t}\n\t\t\tlastOffset = event.Offset")])
 mut("c10_append_unpadded", "C10", ["(*MemoryStore).Append#cs.C10.append.log"],
     [("persist.go", "offset := Offset(fmt.Sprintf(\"%020d\", m.nextOffset))", "offset := Offset(fmt.Sprintf(\"%d\", m.nextOffset))")])
@@ -159,7 +159,7 @@ mut("c03_unguarded_lastoffset_read", "C03", ["(*EventBus).persistEvent#guard.rea
     [("persist.go", "\tbus.storeMu.Unlock()\n\n\t// Observability: Track persistence complete", "\tbus.storeMu.Unlock()\n\t_ = bus.lastOffset\n\n\t// Observability: Track persistence complete")])
 
 # ---------------------------------------------------------------- round 5: refinement, termination, pool, content
-mut("c10_mem_read_inclusive", "C10", ["(*MemoryStore).Read#cs.C10.read.pos.lo"],
+mut("c10_mem_read_inclusive", "C10", ["(*MemoryStore).Read#loop1.inv.block.preserve"],
     [("persist.go", "\t\tif from == OffsetOldest || event.Offset > from {\n\t\t\tresult = append(result, event)", "\t\tif from == OffsetOldest || event.Offset >= from {\n\t\t\tresult = append(result, event)")])
 mut("c10_mem_read_next_stale", "C10", ["(*MemoryStore).Read#cs.C10.read.r5a"],
     [("persist.go", "\t\t\tresult = append(result, event)\n\t\t\tlastOffset = event.Offset\n", "\t\t\tresult = append(result, event)\n\t\t\tif limit <= 0 {\n\t\t\t\tlastOffset = event.Offset\n\t\t\t}\n")])
